@@ -86,6 +86,7 @@ struct H {
     const std::string& nm = op.name; CModel& m = c[i];
     if (m.closed || !m.cl) { ctx->count("skipped"); return; }   // (closed, or the connection that is still to be accepted)
     if (nm == "write") doWrite(i, 1 + n % 5000, "after write");
+    else if (nm == "hugewrite") { doWrite(i, 65537 + n % 140000, "after a write of more than 64 KiB"); ctx->label("write>64KiB"); }   // (an implementation may hand such data over in pieces)
     else if (nm == "write0") {
       // a write of no bytes while a backlog exists: nothing is added, the reported postponed size is still the backlog
       // (without a backlog a zero-byte send() is indistinguishable from a closed connection: not generated)
@@ -206,9 +207,9 @@ void pbt_generate(Rng& r, int size, Case& c) {
     }
     c.add("fault", kind, v);
   }
-  static const char* names[] = {"write", "suspend", "resume", "peerread", "peerdrain", "peerwrite", "query", "leave", "wincb", "sincb", "write0"};
-  static const int w[] = {40, 6, 8, 16, 6, 8, 10, 4, 8, 4, 3};
-  for (int k = 0; k < n; ++k) { int o = r.weighted(w, 11); c.add(names[o], (long)r.below(NC), (long)r.below(100000), (long)r.below(1000)); }
+  static const char* names[] = {"write", "suspend", "resume", "peerread", "peerdrain", "peerwrite", "query", "leave", "wincb", "sincb", "write0", "hugewrite"};
+  static const int w[] = {40, 6, 8, 16, 6, 8, 10, 4, 8, 4, 3, 1};
+  for (int k = 0; k < n; ++k) { int o = r.weighted(w, 12); c.add(names[o], (long)r.below(NC), (long)r.below(100000), (long)r.below(1000)); }
 }
 
 bool pbt_nontrivial(const Ctx& ctx) { return ctx.has("backlog_created") && ctx.has("write_while_backlog") && ctx.has("onWrite_after_drain"); }
